@@ -33,6 +33,71 @@ Theorem C12_get_is_denotation : forall (prog : tytag -> ref -> comp) (filters : 
 Proof. exact cache_answers_D. Qed.
 Print Assumptions C12_get_is_denotation.
 
+(** the typed-load dimension, for every history.  Cache entries are keyed by the reference only; whatever
+    was read before — the same reference as other types, with values, with errors of any kind, re-loaded —
+    get::<ty>(r) returns the denotation of loading r AS ty, which is what the uncached resolver returns for
+    that type *)
+Theorem C12_typed_get_any_history :
+  forall (prog : tytag -> ref -> comp) (filters : ref -> list filt) (raw : ref -> outcome)
+         (appf : filt -> val -> outcome) (imgc : ref -> filt -> val -> outcome)
+         (rank : ref -> nat) (oc sc : bool) (fuel : nat) (history : list call) (ty : tytag) (r : ref),
+    acyclic prog rank -> fuel_ok rank fuel history -> (rank r < fuel)%nat ->
+    let st := final_state prog filters raw appf imgc oc sc fuel history init in
+    fst (get (cfg_fixed oc sc) prog fuel [] ty r st) = D prog rank ty r /\
+    fst (get no_cache prog fuel [] ty r init) = D prog rank ty r.
+Proof. exact cache_typed_get_any_history. Qed.
+Print Assumptions C12_typed_get_any_history.
+
+(** cached errors are never trusted: an error entry of ANY kind under ANY reference (what a load as another
+    type, a retried load or a concurrent load may have left there) changes no typed answer *)
+Theorem C12_error_entries_irrelevant :
+  forall (prog : tytag -> ref -> comp) (filters : ref -> list filt) (raw : ref -> outcome)
+         (appf : filt -> val -> outcome) (imgc : ref -> filt -> val -> outcome)
+         (rank : ref -> nat) (oc sc : bool) (fuel : nat) (history : list call) (ty : tytag) (r r0 : ref) (k : N),
+    acyclic prog rank -> fuel_ok rank fuel history -> (rank r < fuel)%nat ->
+    let st := final_state prog filters raw appf imgc oc sc fuel history init in
+    fst (get (cfg_fixed oc sc) prog fuel [] ty r (set_oc st r0 (EErr k))) = D prog rank ty r.
+Proof. exact cache_error_entries_irrelevant. Qed.
+Print Assumptions C12_error_entries_irrelevant.
+
+(** a value cached as one type is never served as another: an entry only has to be right for its own type *)
+Theorem C12_value_entries_typed :
+  forall (prog : tytag -> ref -> comp) (filters : ref -> list filt) (raw : ref -> outcome)
+         (appf : filt -> val -> outcome) (imgc : ref -> filt -> val -> outcome)
+         (rank : ref -> nat) (oc sc : bool) (fuel : nat) (history : list call) (ty ty0 : tytag) (r r0 : ref) (v0 : val),
+    acyclic prog rank -> fuel_ok rank fuel history -> (rank r < fuel)%nat ->
+    D prog rank ty0 r0 = Ok v0 ->
+    let st := final_state prog filters raw appf imgc oc sc fuel history init in
+    fst (get (cfg_fixed oc sc) prog fuel [] ty r (set_oc st r0 (EOk ty0 v0))) = D prog rank ty r.
+Proof. exact cache_value_entries_typed. Qed.
+Print Assumptions C12_value_entries_typed.
+
+(** the stream cache (keyed by the reference only) holds nothing but full decodes after every history ... *)
+Theorem C12_stream_entries_full :
+  forall (prog : tytag -> ref -> comp) (filters : ref -> list filt) (raw : ref -> outcome)
+         (appf : filt -> val -> outcome) (imgc : ref -> filt -> val -> outcome)
+         (rank : ref -> nat) (oc sc : bool) (fuel : nat) (history : list call) (r : ref) (x : outcome),
+    acyclic prog rank -> fuel_ok rank fuel history ->
+    let st := final_state prog filters raw appf imgc oc sc fuel history init in
+    lookup r (scache st) = Some x -> x = sdecode raw appf r (filters r).
+Proof. exact cache_stream_entries_full. Qed.
+Print Assumptions C12_stream_entries_full.
+
+(** ... and the partial-decode path of raw_image_data (get_data_or_decode is by-passed when image filters are
+    left over) answers the pure split decode in every reachable state and leaves the caches untouched *)
+Theorem C12_partial_decode :
+  forall (prog : tytag -> ref -> comp) (filters : ref -> list filt) (raw : ref -> outcome)
+         (appf : filt -> val -> outcome) (imgc : ref -> filt -> val -> outcome)
+         (rank : ref -> nat) (oc sc : bool) (fuel : nat) (history : list call) (r : ref),
+    acyclic prog rank -> fuel_ok rank fuel history ->
+    let st := final_state prog filters raw appf imgc oc sc fuel history init in
+    fst (raw_image_data (cfg_fixed oc sc) filters raw appf r st) = raw_image_pure filters raw appf r /\
+    (skipn (match rposition is_image_filter (filters r) with Some i => i | None => length (filters r) end)
+           (filters r) <> [] ->
+     snd (raw_image_data (cfg_fixed oc sc) filters raw appf r st) = st).
+Proof. exact cache_partial_decode. Qed.
+Print Assumptions C12_partial_decode.
+
 (** C12-c (open): objects that eagerly load each other and survive the nested "Recursive reference" error *)
 Theorem C12_cyclic_refuted : ~ C12_full_statement.
 Proof. exact cyclic_refuted. Qed.
@@ -49,6 +114,18 @@ Theorem C12_b_refuted_before_fix : exists prog filters raw appf imgc fuel calls,
   <> map (fun cl => fst (do_call no_cache prog filters raw appf imgc fuel cl init)) calls.
 Proof. exact prefix_b_refuted. Qed.
 Print Assumptions C12_b_refuted_before_fix.
+
+(** the class of changes "serve a cached error of some kinds to a load that did not compute it" (C12-b was: all
+    kinds; the seeded change missed_C13b: the missing-object kinds) breaks the property for EVERY kind *)
+Theorem C12_serving_cached_errors_refuted : forall (serve : N -> bool) (k : N),
+  serve k = true ->
+  exists (prog : tytag -> ref -> comp) (rank : ref -> nat) (fuel : nat) (ty1 ty2 : tytag) (r : ref),
+    acyclic prog rank /\
+    let first := get_gen (cfg_fixed true true) prog serve fuel [] ty1 r init in
+    fst (get_gen (cfg_fixed true true) prog serve fuel [] ty2 r (snd first))
+    <> fst (get no_cache prog fuel [] ty2 r init).
+Proof. exact serving_cached_errors_refuted. Qed.
+Print Assumptions C12_serving_cached_errors_refuted.
 
 (** generated tables of types.rs raw_image_data against the standard's filter classes *)
 Theorem C12_split_table : forall f, In f filter_codes -> is_image_filter f = spec_is_image f.
@@ -75,4 +152,30 @@ Proof.
   destruct (r =? 2) eqn:E2.
   - cbn [bounded]. change (1 =? 2) with false. cbv iota. split; [lia|]. intros o1. split; [lia|]. intros o2. exact I.
   - destruct (ty =? 1); exact I.
+Qed.
+
+(** non-vacuity of the typed statements: object 2 loaded eagerly (type 0) follows a reference to an object that
+    does not exist (error 3), loaded lazily (type 1) it succeeds; object 4 is of the wrong type for type 0
+    (error 10), fails to parse... for type 1 (error 11) and loads as type 2.  Every order of the loads is answered
+    as alone, and the state reached holds error entries *)
+Definition ex2_prog (ty : tytag) (r : ref) : comp :=
+  if r =? 2 then (if ty =? 1 then Ret (Ok 7) else Call 0 3 (fun o => Ret (match o with Ok v => Ok (v + 1) | _ => o end)))
+  else if r =? 3 then Ret (Err 3)
+  else if r =? 4 then (if ty =? 0 then Ret (Err 10) else if ty =? 1 then Ret (Err 11) else Ret (Ok 9))
+  else Ret (Ok 5).
+Example C12_typed_nonvacuous :
+  acyclic ex2_prog (fun r => if r =? 2 then 1%nat else 0%nat) /\
+  let run_ := run (cfg_fixed true true) ex2_prog (fun _ => []) (fun _ => Ok 0) (fun _ d => Ok d) (fun _ _ d => Ok d) 5 in
+  run_ [CGet 0 2; CGet 1 2; CGet 0 2; CGet 0 4; CGet 1 4; CGet 2 4; CGet 0 4] init
+    = [Err 3; Ok 7; Err 3; Err 10; Err 11; Ok 9; Err 10] /\
+  run_ [CGet 1 2; CGet 0 2; CGet 2 4; CGet 1 4] init = [Ok 7; Err 3; Ok 9; Err 11] /\
+  lookup 2 (ocache (final_state ex2_prog (fun _ => []) (fun _ => Ok 0) (fun _ d => Ok d) (fun _ _ d => Ok d)
+                                true true 5 [CGet 0 2; CGet 1 2] init)) = Some (EErr 3).
+Proof.
+  split; [|vm_compute; repeat split; reflexivity].
+  intros ty r. destruct (r =? 2) eqn:E2; unfold ex2_prog; rewrite E2.
+  - destruct (ty =? 1); [exact I|]. cbn [bounded]. change (3 =? 2) with false. cbv iota.
+    split; [lia|]. intros o. exact I.
+  - destruct (r =? 3); [exact I|]. destruct (r =? 4); [|exact I].
+    destruct (ty =? 0); [exact I|]. destruct (ty =? 1); exact I.
 Qed.
